@@ -22,8 +22,10 @@ LEVEL_TEXT = ("Lean 4 theorems for all graphs, selectors, hosts and node-map ite
               "their transitive dependencies (edges through aliases are edges), it is closed under direct dependencies, and selection fails exactly "
               "when that closure contains a platform-incompatible target. Tied to the code by differential runs in process and through real "
               "`grog build/test` invocations whose executed commands are compared with the predicted set.")
-LEVEL_NOTE = ("`only_selected_run` (no other command runs) is a composition with the walker/execution model of another group; here it is sampled through "
-              "the CLI traces (clean cache: executed set = selected targets). Pattern parsing is the model of C17. "
+LEVEL_NOTE = ("`only_selected_run` (no other command runs) is proved in Props/Compose.lean by composing select_closed / select_eq_closure with the walker "
+              "and pool-task models of C03-C05 (their hypotheses CfgOK.closed and CfgOK.desc_iff are discharged there; acyclicity, which analysis.BuildGraph "
+              "checks (C11), stays a hypothesis); it is also sampled through the CLI traces (clean cache: executed set = selected targets). "
+              "Pattern parsing is the model of C17. "
               "Trusted: Lean kernel; propext/Classical.choice/Quot.sound; the correspondence harness; loaders and cobra/viper flag plumbing (CLI tie only).")
 TECHNIQUE = "Lean 4 proof over an executable model + differential correspondence (in-process selector and real CLI build traces)"
 OBLIGATIONS = [
@@ -33,7 +35,13 @@ OBLIGATIONS = [
     "Grog.C12.select_order_independent",
     "Grog.C12.select_total",
     "Grog.C12.select_nodup",
+    # composition with the walker / pool-task models (Props/Compose.lean)
+    "Grog.C12.desc_iff",
+    "Grog.C12.walker_cfg_ok",
+    "Grog.C12.only_selected_run",
+    "Grog.C12.unselected_never_started",
 ]
+PROP_MODULES = ["GrogModel.Props.C12", "GrogModel.Props.Compose"]
 ASSUMPTIONS = [
     "the node map iteration order of Go is arbitrary: the theorems quantify over every order, the model side of the tie runs a shuffled order",
     "CLI tie: every generated command succeeds and the cache is empty, so executed = selected targets",
@@ -50,6 +58,11 @@ def run(ctx):
     reqs = []
     for _ in range(3000 if quick else 60000):
         r = G.gen_select_req(rng)
+        r["op"] = "graph.select"
+        reqs.append(r)
+    # targeted: relative patterns (`:...`, `:all`, `:name`) from a nested current package that has sub-packages and a prefix sibling
+    for _ in range(400 if quick else 6000):
+        r = G.gen_relative_req(rng)
         r["op"] = "graph.select"
         reqs.append(r)
     # boundary sizes: node counts around powers of two (sparse graphs)
@@ -72,6 +85,8 @@ def run(ctx):
     bad_corr, nontrivial = [], set()
     outcomes = {"ok": 0, "platform-error": 0, "pattern-rejected": 0, "empty-selection": 0, "with-closure-only-nodes": 0, "through-alias": 0}
     ref_checked = 0
+    outcomes["relative-pattern-in-nested-package"] = sum(1 for r in reqs if any(p.startswith(":") for p in r["patterns"]) and r["cur"] in G.nested_packages(r["nodes"]))
+    outcomes["relative-dots-in-nested-package"] = sum(1 for r in reqs if ":..." in r["patterns"] and r["cur"] in G.nested_packages(r["nodes"]))
     for r, a, b in zip(reqs, impl, model):
         cov["evaluations"] += 1
         if "panic" in a or "error" in a:
@@ -176,7 +191,7 @@ def resolve(nodes, deps, i):
 
 
 def gen_cli_case(rng):
-    req = G.gen_select_req(rng, rng.randint(3, 10))
+    req = G.gen_relative_req(rng) if rng.random() < 0.3 else G.gen_select_req(rng, rng.randint(3, 10))
     nodes = req["nodes"]
     for n in nodes:
         n["bin"] = False
